@@ -230,6 +230,10 @@ func main() {
 		*b == "InjectKey" || *b == "InjectKeyBytes" || *b == "InjectMouse" || *b == "GetContents" || *b == "GetCursor" || *b == "GetTitle" || *b == "GetClipboardData") {
 		fail("simulation-only op on terminfo screen")
 	}
+	if *a == "Fini" || *b == "Fini" {
+		// no key traffic at all in runs that finish the screen (resize traffic stays): see env.quiet
+		atomic.StoreInt32(&e.quiet, 1)
+	}
 	paint(e)
 	e.s.Show()
 	var ca, cb, ev int64
